@@ -193,7 +193,19 @@ fn specs(thorough: bool) -> Vec<Spec> {
         a(3, per, near(3 * per), Some(2));
     }
     a(3, 1, None, None);
+    // across the wrap (start closer to 2^63 than the number of allocations): distinctness is not
+    // demanded there, but no id may carry the tag bit or be reserved, under every interleaving of
+    // the overflow path (fetch, reset, retry)
+    a(2, 1, near(1), None);
+    a(2, 2, near(1), Some(3));
+    a(2, 2, near(2), Some(3));
+    a(2, 2, near(3), Some(3));
+    a(3, 1, near(1), Some(2));
+    a(3, 1, near(2), Some(2));
     if thorough {
+        a(3, 2, near(1), Some(2));
+        a(3, 2, near(3), Some(2));
+        a(2, 3, near(2), Some(3));
         a(3, 2, None, Some(3));
         a(3, 2, near(6), Some(3));
         a(3, 2, None, None);
@@ -252,7 +264,8 @@ fn run_model_a(spec: &Spec) -> ModelOut {
         let all: Vec<u64> = per_thread.iter().flatten().copied().collect();
         let set: BTreeSet<u64> = all.iter().copied().collect();
         let mut problems = Vec::new();
-        if set.len() != all.len() {
+        let crosses_wrap = start.map_or(false, |s| s + (threads * per) as u64 > TAG);
+        if set.len() != all.len() && !crosses_wrap {
             problems.push("duplicate file id");
         }
         if all.iter().any(|&i| i == 1 || i == 2 || i == 0) {
@@ -624,6 +637,151 @@ fn smoke_child() -> ! {
 
 // ---------------------------------------------------------------------------------------------
 
+// ---------------------------------------------------------------------------------------------
+// first-use order of the lazily initialised statics (E-CHOICE): which call of a fresh process
+// touches them first is an environment answer; every sequence of <= 2 "first operations" from a
+// menu is run in a fresh child process, followed by one fixed probe workload whose rendering must
+// not depend on the prefix.
+// ---------------------------------------------------------------------------------------------
+
+const FIRST_OPS: [&str; 7] = [
+    "validate an ordinary schema",
+    "validate a schema from which the unused built-in scalar Float was removed by hand",
+    "validate a schema from which the unused built-in scalars Int, Float, ID were removed by hand",
+    "Schema::parse only (no validation)",
+    "validate a schema that references no built-in scalar",
+    "introspect (__schema / __type) against a valid schema",
+    "validate an executable document that uses __typename",
+];
+
+fn first_op(k: usize) {
+    let trimmed = |sdl: &str, gone: &[&str]| {
+        let mut s = Schema::parse(sdl, "first.graphql").expect("fixture parses");
+        for g in gone {
+            s.types.shift_remove(*g);
+        }
+        let _ = s.validate();
+    };
+    match k {
+        0 => {
+            let _ = Schema::parse_and_validate(SCHEMA_B, "first.graphql");
+        }
+        1 => trimmed("type Query { a: Int }", &["Float"]),
+        2 => trimmed("type Query { q: Query }", &["Int", "Float", "ID"]),
+        3 => {
+            let _ = Schema::parse("type Query { f: Float }", "first.graphql");
+        }
+        4 => {
+            let _ = Schema::parse_and_validate("type Query { q: Query }", "first.graphql");
+        }
+        5 => {
+            if let Ok(schema) = Schema::parse_and_validate(SCHEMA_B, "first.graphql") {
+                let _ = workload_b(&schema, 2);
+            }
+        }
+        _ => {
+            if let Ok(schema) = Schema::parse_and_validate("type Query { q: Query }", "first.graphql") {
+                let _ = ExecutableDocument::parse_and_validate(&schema, "{ __typename q { __typename } }", "first-doc.graphql");
+            }
+        }
+    }
+}
+
+/// The probe: results that depend on the lazily built tables (built-in definitions, the table of
+/// built-in scalars used for pruning / restoring, meta-field definitions).
+fn first_use_probe() -> String {
+    let mut out = String::new();
+    let keys = |s: &Schema| s.types.keys().map(|k| k.to_string()).collect::<Vec<_>>().join(",");
+    match Schema::parse_and_validate("type Query { a: Int b: Float c: ID }", "p1.graphql") {
+        Ok(v) => out.push_str(&format!("p1 ok {}\n", keys(&v))),
+        Err(e) => out.push_str(&format!("p1 err {}\n", e.errors)),
+    }
+    // validate, unwrap, add a field of a pruned built-in scalar, validate again (C16's scenario)
+    match Schema::parse_and_validate("type Query { q: Query }", "p2.graphql") {
+        Ok(v) => {
+            out.push_str(&format!("p2 ok {}\n", keys(&v)));
+            let mut s = v.into_inner();
+            let more = Schema::parse("type Query { q: Query f: Float i: ID }", "p2b.graphql").expect("fixture parses");
+            if let Some(q) = more.get_object("Query") {
+                s.types.insert(q.name.clone(), q.clone().into());
+            }
+            match s.validate() {
+                Ok(v) => out.push_str(&format!("p2b ok {}\n", keys(&v))),
+                Err(e) => out.push_str(&format!("p2b err {}\n", e.errors)),
+            }
+        }
+        Err(e) => out.push_str(&format!("p2 err {}\n", e.errors)),
+    }
+    match Schema::parse_and_validate(SCHEMA_B, "schema.graphql") {
+        Ok(schema) => {
+            for i in 0..3 {
+                out.push_str(&workload_b(&schema, i));
+                out.push('\n');
+            }
+        }
+        Err(e) => out.push_str(&format!("p3 err {}\n", e.errors)),
+    }
+    out
+}
+
+fn first_child(arg: &str) -> ! {
+    for k in arg.split(',').filter(|x| !x.is_empty()) {
+        first_op(k.parse().unwrap_or(0));
+    }
+    FileId::reset();
+    let probe = first_use_probe();
+    println!("FIRSTRESULT {}", serde_json::to_string(&probe).unwrap_or_default());
+    std::process::exit(0)
+}
+
+fn run_first_child(prefix: &[usize]) -> Result<String, String> {
+    let exe = std::env::current_exe().map_err(|e| e.to_string())?;
+    let arg = prefix.iter().map(|k| k.to_string()).collect::<Vec<_>>().join(",");
+    let out = std::process::Command::new(exe).arg("--child-first").arg(&arg).env("RUST_BACKTRACE", "0").output().map_err(|e| e.to_string())?;
+    let stdout = String::from_utf8_lossy(&out.stdout);
+    for l in stdout.lines() {
+        if let Some(rest) = l.strip_prefix("FIRSTRESULT ") {
+            return serde_json::from_str::<String>(rest).map_err(|e| e.to_string());
+        }
+    }
+    Err(format!("child died (status {:?}): {} {}", out.status.code(), vcore::short(&stdout), vcore::short(&String::from_utf8_lossy(&out.stderr))))
+}
+
+fn first_use_prefixes() -> Vec<Vec<usize>> {
+    let n = FIRST_OPS.len();
+    let mut v: Vec<Vec<usize>> = (0..n).map(|a| vec![a]).collect();
+    for a in 0..n {
+        for b in 0..n {
+            if a != b {
+                v.push(vec![a, b]);
+            }
+        }
+    }
+    v
+}
+
+fn first_use_case(prefix: &[usize], reference: &str, st: &mut Stats) {
+    st.states += 1;
+    st.transitions += 1;
+    st.nontrivial += 1;
+    let case = json!({"part": "first-use", "prefix": prefix, "operations": prefix.iter().map(|k| FIRST_OPS[*k]).collect::<Vec<_>>()});
+    match run_first_child(prefix) {
+        Err(e) => st.fail_simple("first-use-child-died", case, e, prefix.len() as u64),
+        Ok(got) if got == reference => st.outcome("first-use order: probe equals the reference process"),
+        Ok(got) => {
+            let diff = got.lines().zip(reference.lines()).find(|(a, b)| a != b).map(|(a, b)| format!("`{}` vs reference `{}`", vcore::short(a), vcore::short(b))).unwrap_or_else(|| "different length".into());
+            st.outcome("first-use order: probe differs");
+            st.fail_simple(
+                "first-use-order-dependence",
+                case,
+                format!("a fresh process whose first operations are {:?} renders the probe workload differently from a fresh process that runs the probe first: {diff}",
+                    prefix.iter().map(|k| FIRST_OPS[*k]).collect::<Vec<_>>()),
+                prefix.len() as u64,
+            );
+        }
+    }
+}
+
 fn run_spec_into(spec: &Spec, st: &mut Stats) {
     st.states += 1;
     let case = json!({"part": "loom", "spec": spec.to_json()});
@@ -667,6 +825,9 @@ fn main() {
     if argv.iter().any(|a| a == "--child-smoke") {
         smoke_child();
     }
+    if let Some(p) = argv.iter().position(|a| a == "--child-first") {
+        first_child(argv.get(p + 1).map(|s| s.as_str()).unwrap_or(""));
+    }
     let mut chk = vcore::Check::new("C31");
     vcore::quiet_panics();
     let thorough = chk.tier() == vcore::Tier::Thorough;
@@ -703,6 +864,25 @@ fn main() {
     FileId::reset();
     chk.absorb(st);
 
+    // first-use order: every sequence of <= 2 distinct first operations, each in a fresh process
+    let first_reference = run_first_child(&[]).unwrap_or_else(|e| vcore::machinery_error(&format!("first-use reference child: {e}")));
+    if run_first_child(&[]).ok().as_deref() != Some(first_reference.as_str()) {
+        vcore::machinery_error("first-use probe is not deterministic across two fresh processes");
+    }
+    let prefixes = first_use_prefixes();
+    let parts: Vec<Stats> = prefixes
+        .par_iter()
+        .map(|p| {
+            let mut st = Stats::default();
+            first_use_case(p, &first_reference, &mut st);
+            st
+        })
+        .collect();
+    for r in parts {
+        chk.absorb(r);
+    }
+    chk.stats.count("first-use prefixes (fresh processes)", prefixes.len() as u64);
+
     // supplementary smoke (sampling, labelled; a difference is reported, silence proves nothing)
     let smoke_runs = if thorough { 20 } else { 4 };
     let mut smoke_same = 0;
@@ -728,16 +908,17 @@ fn main() {
 
     chk.bounds = json!({
         "loom_models": specs.iter().map(|s| s.label()).collect::<Vec<_>>(),
-        "model_A": "threads x allocations of the real FileId::new; start = initial value or 2^63 - (threads*allocations) (never across the wrap)",
+        "model_A": "threads x allocations of the real FileId::new; start = initial value, 2^63 - (threads*allocations) (up to the wrap: distinct, unreserved, untagged), or closer to 2^63 than that (across the wrap: unreserved and untagged under every interleaving of fetch / reset / retry)",
         "model_B": "threads each parse+validate+introspect one document against a shared Arc<Valid<Schema>>; scheduling points = id counter operations",
+        "first_use_order": {"operations": FIRST_OPS, "prefixes": "every sequence of 1..2 distinct operations, each in a fresh process, followed by the probe workload", "processes": prefixes.len()},
         "packing_lattice_ids": ids.len(),
         "packing_tags": ["heap (Arc<str>) name", "static name"],
     });
     chk.rule = "states = loom model specifications + lattice ids + the sequential case; transitions = loom executions (complete interleavings of the real code, run to completion) + lattice evaluations; non-trivial = every loom model and every lattice id".into();
     chk.assumptions = vec![
         "loom's DPOR enumerates every interleaving of the operations on the one intercepted atomic (parser::NEXT) under the C11 model for the orderings the code passes; 'unbounded' = complete, 'pbN' = complete up to N preemptions".into(),
-        "std::sync::OnceLock, std::sync::Arc and triomphe::Arc internals are not intercepted (trusted base): in model B every lazily initialised static is warmed up before exploration, so model B decides only the interference through the id counter; the free-running first-use repetition is sampling and is labelled as such".into(),
-        "distinctness is demanded up to, not across, the 63-bit wrap (as the statement says); across the wrap only 'untagged and unreserved' is checked, sequentially".into(),
+        "std::sync::OnceLock, std::sync::Arc and triomphe::Arc internals are not intercepted (trusted base): in model B every lazily initialised static is warmed up before exploration, so model B decides only the interference through the id counter; the free-running first-use repetition is sampling and is labelled as such; the first-use ORDER part enumerates which operation of a fresh process touches the statics first (sequentially, one process per prefix)".into(),
+        "distinctness is demanded up to, not across, the 63-bit wrap (as the statement says); across the wrap only 'untagged and unreserved' is checked (sequentially, and in model A's across-the-wrap specifications under every interleaving)".into(),
         "FileId::reset() is a documented test-only operation and is not part of the concurrent alphabet".into(),
     ];
     chk.exhaustive = true;
@@ -760,6 +941,11 @@ fn replay(case: &Value, st: &mut Stats) {
             FileId::reset();
         }
         Some("sequential") => sequential_cases(st),
+        Some("first-use") => {
+            let prefix: Vec<usize> = case["prefix"].as_array().map(|a| a.iter().map(|x| x.as_u64().unwrap_or(0) as usize).collect()).unwrap_or_default();
+            let reference = run_first_child(&[]).unwrap_or_else(|e| vcore::machinery_error(&format!("first-use reference child: {e}")));
+            first_use_case(&prefix, &reference, st);
+        }
         Some("smoke") => {
             // sampling: re-run a batch
             let exe = std::env::current_exe().unwrap();
